@@ -263,6 +263,14 @@ def sweep_ext(job):
         rec = bytes([0, fl]) + base[2:]
         run(abil, abil.wrap([rec]), f"following{fl}")
         run(abil, abil.wrap([rec[:2 + fl]]), f"following{fl}-exact")
+    if gen == 5:
+        # first record announces that more than 24 bytes belong to it
+        for fl in (50, 76):
+            n_rec = (fl + 2) // 26
+            data = abil.wrap([bytes([0, fl]) + base[2:]] + [bytes([i + 1]) + base22[1:] for i in range(n_rec - 1)])
+            p = judge(abil, data, stats)
+            if p:
+                bad.append(("at5-ability:following-length-ignored", f"at5-ability payload {data.hex()}: {p}"))
     if gen == 4:
         for bit in range(16):
             rec = base[:24] + bytes([(1 << bit) & 0xFF, (1 << bit) >> 8])
